@@ -100,10 +100,73 @@ EDGE = [1 - 2.0 ** -53]
 EDGE_KEY = "band-infinite-at-largest-f64-probability-below-one"
 
 
+BAND_HEADER = ("From Coq Require Import ZArith NArith List.\nImport ListNotations.\nFrom VP Require Import Exec.BandRun.\n")
+
+
+def band_argument_correspondence(run, binp, pairs):
+    """Model/BandFloat.v against the implementation, bit for bit: for every probability handed to confidence_band_radius the Coq
+    model says whether the assertion accepts it and which binary64 quantile argument results; the library's own quantile routine
+    (distrs, through the harness) is evaluated AT THE MODEL'S ARGUMENT and radius_i must be exactly cast(t * sigma_i)."""
+    import math
+    want = {}
+    for c, r in pairs:
+        for h in c["ops"][1][2]:
+            want[(c["scalar"], hxbits(h))] = None
+    keys = sorted(want)
+    terms = ["band_arg%s %d%%Z" % ("64" if sc == "f64" else "32", b) for sc, b in keys]
+    outs = coq_eval("C14", BAND_HEADER, terms)
+    for k, o in zip(keys, outs):
+        want[k] = o
+    # the library's quantile routine at the model's arguments
+    pcases, pidx = [], []
+    for c, r in pairs:
+        st = r["steps"][1]["v"]
+        if not st.get("ok"):
+            continue
+        dof = st["stats"]["dof"]
+        qs = [want[(c["scalar"], hxbits(h))] for h in c["ops"][1][2]]
+        pcases.append({"id": len(pcases), "dof": dof, "q": [str(q - 1) for q in qs if q]})
+        pidx.append((c, r, qs))
+    pres = run_harness(binp, "ppf", pcases, os.path.join(COQ, "run", "C14"), timeout_ms=20000, tag="ppf")
+    n = 0
+    for (c, r, qs), pr in zip(pidx, pres):
+        sc = c["scalar"]
+        ts = iter(pr["head"]["t"])
+        st = r["steps"][1]["v"]["stats"]
+        sig = [unhx(h) for h in st["usigma"]]
+        for h, q, b in zip(c["ops"][1][2], qs, st["bands"]):
+            n += 1
+            if not q:
+                if not b.get("panic"):
+                    run.violation("confidence_band_radius accepted probability %r although the assertion of the model (finite, 0 < p < 1) rejects it"
+                                  % unhx(h), {"case": c, "p": h, "band": b, "theorem_or_correspondence": "Model/BandFloat.prob_ok"})
+                continue
+            t = bits_f64(int(next(ts)))
+            if b.get("panic"):
+                run.violation("confidence_band_radius rejected probability %r although it is finite and strictly between 0 and 1" % unhx(h),
+                              {"case": c, "p": h, "band": b, "theorem_or_correspondence": "Model/BandFloat.prob_ok"})
+                continue
+            for i, (sg, rh) in enumerate(zip(sig, b["radius"])):
+                v = t * sg
+                try:
+                    eh = hx(v, sc)
+                except OverflowError:
+                    eh = hx(math.copysign(float("inf"), v), sc)
+                same = (eh == rh) or (v != v and unhx(rh) != unhx(rh))
+                if not same:
+                    run.violation("band radius entry %d for p = %r is not cast(t * sigma_i) with t the library's quantile at the argument "
+                                  "(p + 1) / 2 formed in binary64 (Model/BandFloat.qarg): implementation %r, model %r"
+                                  % (i, unhx(h), unhx(rh), unhx(eh)),
+                                  {"case": c, "p": h, "dof": st["dof"], "quantile_argument_bits": q - 1, "t": t, "sigma_i": sg,
+                                   "theorem_or_correspondence": "correspondence Exec/BandRun (Model/BandFloat.v vs confidence_band_radius)"})
+                    break
+    return n
+
+
 def main(tier, seed, replay=None):
     run = Run("C14", tier, seed, "proof")
     rng = random.Random(seed)
-    proof_obligations(run, "C14")
+    proof_obligations(run, "C14", extra_pins=("C14F",))
     binp = build_harness("dev")
     cases = []
     k = 0
@@ -155,6 +218,8 @@ def main(tier, seed, replay=None):
     for (c, pr), code in zip(bidx, bcodes):
         if code != 0:
             run.violation("band radius is not t * sigma_i (many degrees of freedom, p=%r, code %d)" % (pr, code), {"case": c})
+    nband = band_argument_correspondence(run, binp, [(c, r) for c, r in zip(cases, results) if r.get("steps") and r["head"].get("build") == "ok"]
+                                         + [(c, r) for c, r in zip(big, bres) if r.get("steps") and r["head"].get("build") == "ok"])
     ndof = {}
     nedge = 0
     for c, r in idx:
@@ -198,8 +263,11 @@ def main(tier, seed, replay=None):
                 "arithmetic, Model/Numeric.check_stats code 30) with t the Student-t quantile at (1+p)/2 and N-M-P degrees of freedom "
                 "(cross-checked against an independent incomplete-beta evaluation), sigma_i^2 = j_i^T Cov j_i with the unweighted j_i "
                 "(code 29), finite, non-negative, one entry per sample, non-decreasing in p" % (PROBS, BAD),
-        "large_dof_band_checks": len(bterms), "edge_probability_checks": nedge, "dof_histogram": {str(k): v for k, v in sorted(ndof.items())}, "value_code_histogram": {str(k): v for k, v in hist.items()},
+        "large_dof_band_checks": len(bterms), "edge_probability_checks": nedge, "quantile_argument_bit_exact_checks": nband, "dof_histogram": {str(k): v for k, v in sorted(ndof.items())}, "value_code_histogram": {str(k): v for k, v in hist.items()},
         "fits_that_returned_err": nerr})
     run.samples = [{"meta": c["meta"], "scalar": c["scalar"]} for c, r in idx[:3]]
+    run.coverage["trusted_base"] = run.coverage.get("trusted_base", []) + [
+        "Flocq 4.1.0 (IEEE-754 binary32/binary64 model) for Props/C14F.v; its theorems depend on the standard library's real-number axioms "
+        "ClassicalDedekindReals.sig_forall_dec, sig_not_dec, FunctionalExtensionality.functional_extensionality_dep and Classical_Prop.classic"]
     run.assumptions = ["distrs::StudentsT::ppf is the Student-t quantile (checked here to 1e-4 relative: the crate's quantile is itself an approximation)", "C14_mono needs monotonicity of the quantile in q"]
     return run.finish()
